@@ -49,7 +49,51 @@ import (
 // c16Sig is a quorum signature whose participants are iterated in a chosen order. Its byte form does
 // not depend on that order, so blocks built on different replicas from the same signer set have
 // the same hash.
-type c16Sig struct{ ids []hotstuff.ID }
+type c16Sig struct {
+	ids  []hotstuff.ID
+	trip *c16Trip
+}
+
+// c16Trip counts the moments inside a GetLeader call at which code supplied by the harness runs (the logger,
+// the certificate's participant set, the block fetcher) and can run an action at the at-th of them: this is how
+// "a commit lands while GetLeader is running" is produced on the unmodified code.
+type c16Trip struct {
+	armed bool
+	count int
+	at    int
+	fire  func()
+}
+
+func (t *c16Trip) event() {
+	if t == nil || !t.armed {
+		return
+	}
+	if t.count == t.at && t.fire != nil {
+		t.fire()
+	}
+	t.count++
+}
+
+// c16Logger is the replica's logger: every log call is such a moment.
+type c16Logger struct {
+	inner logging.Logger
+	trip  *c16Trip
+}
+
+func (l c16Logger) DPanic(a ...any)           { l.trip.event() }
+func (l c16Logger) DPanicf(string, ...any)    { l.trip.event() }
+func (l c16Logger) Debug(a ...any)            { l.trip.event(); l.inner.Debug(a...) }
+func (l c16Logger) Debugf(t string, a ...any) { l.trip.event(); l.inner.Debugf(t, a...) }
+func (l c16Logger) Error(a ...any)            { l.trip.event(); l.inner.Error(a...) }
+func (l c16Logger) Errorf(t string, a ...any) { l.trip.event(); l.inner.Errorf(t, a...) }
+func (l c16Logger) Fatal(a ...any)            { l.trip.event() }
+func (l c16Logger) Fatalf(string, ...any)     { l.trip.event() }
+func (l c16Logger) Info(a ...any)             { l.trip.event(); l.inner.Info(a...) }
+func (l c16Logger) Infof(t string, a ...any)  { l.trip.event(); l.inner.Infof(t, a...) }
+func (l c16Logger) Panic(a ...any)            { l.trip.event() }
+func (l c16Logger) Panicf(string, ...any)     { l.trip.event() }
+func (l c16Logger) Warn(a ...any)             { l.trip.event(); l.inner.Warn(a...) }
+func (l c16Logger) Warnf(t string, a ...any)  { l.trip.event(); l.inner.Warnf(t, a...) }
 
 func (s c16Sig) ToBytes() []byte {
 	ids := slices.Clone(s.ids)
@@ -60,25 +104,29 @@ func (s c16Sig) ToBytes() []byte {
 	}
 	return b
 }
-func (s c16Sig) Participants() hotstuff.IDSet { return s }
+func (s c16Sig) Participants() hotstuff.IDSet { s.trip.event(); return s }
 func (s c16Sig) Add(hotstuff.ID)              { panic("not implemented") }
-func (s c16Sig) Contains(id hotstuff.ID) bool { return slices.Contains(s.ids, id) }
+func (s c16Sig) Contains(id hotstuff.ID) bool { s.trip.event(); return slices.Contains(s.ids, id) }
 func (s c16Sig) ForEach(f func(hotstuff.ID)) {
 	for _, id := range s.ids {
+		s.trip.event()
 		f(id)
 	}
+	s.trip.event()
 }
 func (s c16Sig) RangeWhile(f func(hotstuff.ID) bool) {
 	for _, id := range s.ids {
+		s.trip.event()
 		if !f(id) {
 			return
 		}
 	}
 }
-func (s c16Sig) Len() int { return len(s.ids) }
+func (s c16Sig) Len() int { s.trip.event(); return len(s.ids) }
 
 // c16Sender serves block requests from a table (other replicas' storage) and drops everything else.
 type c16Sender struct {
+	trip   *c16Trip
 	remote map[hotstuff.Hash]*hotstuff.Block
 }
 
@@ -87,6 +135,7 @@ func (s *c16Sender) Vote(hotstuff.ID, hotstuff.PartialCert) error { return nil }
 func (s *c16Sender) Timeout(hotstuff.TimeoutMsg)                  {}
 func (s *c16Sender) Propose(*hotstuff.ProposeMsg)                 {}
 func (s *c16Sender) RequestBlock(_ context.Context, h hotstuff.Hash) (*hotstuff.Block, bool) {
+	s.trip.event()
 	b, ok := s.remote[h]
 	return b, ok
 }
@@ -100,6 +149,7 @@ type c16Replica struct {
 	bc     *blockchain.Blockchain
 	vs     *protocol.ViewStates
 	logger logging.Logger
+	trip   *c16Trip
 	sender *c16Sender
 	tree   []hotstuff.ID // tree positions or nil
 }
@@ -135,9 +185,10 @@ func c16NewReplicaIDs(id hotstuff.ID, members []hotstuff.ID, seed int64, treePos
 	for _, m := range members {
 		cfg.AddReplica(&hotstuff.ReplicaInfo{ID: m})
 	}
-	logger := logging.NewWithDest(io.Discard, fmt.Sprintf("c16-%d", id))
+	trip := &c16Trip{}
+	var logger logging.Logger = c16Logger{inner: logging.NewWithDest(io.Discard, fmt.Sprintf("c16-%d", id)), trip: trip}
 	el := eventloop.New(logger, 10)
-	sender := &c16Sender{remote: map[hotstuff.Hash]*hotstuff.Block{}}
+	sender := &c16Sender{remote: map[hotstuff.Hash]*hotstuff.Block{}, trip: trip}
 	bc := blockchain.New(el, logger, sender)
 	base, err := crypto.New(cfg, crypto.NameECDSA)
 	if err != nil {
@@ -147,7 +198,7 @@ func c16NewReplicaIDs(id hotstuff.ID, members []hotstuff.ID, seed int64, treePos
 	if err != nil {
 		panic(err)
 	}
-	return &c16Replica{id: id, n: n, seed: seed, cfg: cfg, bc: bc, vs: vs, logger: logger, sender: sender, tree: treePos}
+	return &c16Replica{id: id, n: n, seed: seed, cfg: cfg, bc: bc, vs: vs, logger: logger, sender: sender, tree: treePos, trip: trip}
 }
 
 func (r *c16Replica) rotation(name string, chainLength int) LeaderRotation {
@@ -402,7 +453,7 @@ type c16Chain struct {
 // c16MakeSig wraps a signer list in one of the certificate containers of the repository:
 // 0 the order-controlled stub, 1 crypto.Multi of ECDSA signatures (iterates in slice order),
 // 2 BLS12 aggregate with a bitfield (iterates in ascending id order; needs small distinct ids).
-func c16MakeSig(flavour int, ids []hotstuff.ID) hotstuff.QuorumSignature {
+func c16MakeSig(flavour int, ids []hotstuff.ID, trip *c16Trip) hotstuff.QuorumSignature {
 	switch flavour {
 	case 1:
 		// what a replica holds after receiving the certificate: the wire form through the converter
@@ -433,7 +484,7 @@ func c16MakeSig(flavour int, ids []hotstuff.ID) hotstuff.QuorumSignature {
 			}
 		}
 	}
-	return c16Sig{ids: ids}
+	return c16Sig{ids: ids, trip: trip}
 }
 
 func (c *c16Chain) build(r *c16Replica, perm func([]hotstuff.ID) []hotstuff.ID, local bool, flavour int) []*hotstuff.Block {
@@ -443,7 +494,7 @@ func (c *c16Chain) build(r *c16Replica, perm func([]hotstuff.ID) []hotstuff.ID, 
 	for i, b := range c.blocks {
 		var sig hotstuff.QuorumSignature
 		if b.signers != nil {
-			sig = c16MakeSig(flavour, perm(slices.Clone(b.signers)))
+			sig = c16MakeSig(flavour, perm(slices.Clone(b.signers)), r.trip)
 		}
 		qc := hotstuff.NewQuorumCert(sig, parent.View(), parent.Hash())
 		blk := hotstuff.NewBlock(parent.Hash(), qc, &clientpb.Batch{}, hotstuff.View(b.view), b.proposer)
@@ -733,7 +784,7 @@ func (sc *c16Scenario) head(i, k int) *hotstuff.Block {
 
 func (sc *c16Scenario) describe(k int, view uint64) map[string]any {
 	m := map[string]any{"n": sc.n, "chain_length_param": sc.cl, "shared_seed": sc.seed, "queried_view": view, "committed_head_index": k, "scenario": sc.tag,
-		"own_ids": []uint32{uint32(sc.reps[0].id), uint32(sc.reps[1].id), uint32(sc.reps[2].id)},
+		"own_ids":        []uint32{uint32(sc.reps[0].id), uint32(sc.reps[1].id), uint32(sc.reps[2].id)},
 		"configured_ids": fmt.Sprint(sc.members), "certificate_containers_ABC": sc.flav}
 	var bl []map[string]any
 	for i := 0; i <= k; i++ {
@@ -1545,6 +1596,120 @@ func c16Concurrent(v *verifOut) {
 	}
 }
 
+// ---------------------------------------------------------------------------------------------
+// a commit that lands while GetLeader is running: the committed head is read by the scheme and written by the
+// committer; a query during which the head moves from H to H' must be answered as by a replica that saw H'
+// just BEFORE the query or just AFTER it -- one of the two, and the replica must continue as that one.
+// The head is switched at the j-th moment harness code runs inside the call (c16Trip), for every j.
+
+type c16MidRun struct {
+	a1, a2          c16Obs
+	before1, after1 c16RepState
+	events          int
+}
+
+func c16MidCall(v *verifOut) {
+	sc_ := v.Stream("carousel", "carousel_mismatches", 400)
+	sr := v.Stream("reputation", "reputation_mismatches", 300)
+	rng := v.rng
+	for _, scheme := range []string{NameCarousel, NameReputation} {
+		for rd := 0; rd < v.Pick(4, 24); rd++ {
+			n := []int{4, 7, 10, 13}[rd%4]
+			cl := 1 + rd%3
+			seed := c16Seed(rng)
+			chain := c16GenChain(rng, n, 6+rng.Intn(4), uint64(rng.Intn(3)), 0, nil)
+			own := hotstuff.ID(1 + rng.Intn(n))
+			// one run: warm up under heads 0..k (one question each), then q1 = GetLeader(view) with the head
+			// moving from k to k2 at moment `at` (-1: before the call, -2: after the call), then q2 under k2
+			run := func(k, k2 int, view, view2 uint64, at int) c16MidRun {
+				a := c16NewActor(own, n, seed, chain, c16Same, 0, scheme, cl)
+				for h := 0; h <= k; h++ {
+					a.ask(c16Step{h, chain.blocks[h].view + uint64(int64(cl))})
+				}
+				a.r.vs.UpdateCommittedBlock(a.blocks[k])
+				if at == -1 {
+					a.r.vs.UpdateCommittedBlock(a.blocks[k2])
+				}
+				var out c16MidRun
+				if scheme == NameReputation {
+					out.before1 = c16ReadState(a.lr)
+				}
+				*a.r.trip = c16Trip{armed: true, at: at, fire: func() { a.r.vs.UpdateCommittedBlock(a.blocks[k2]) }}
+				out.a1 = c16Leader(a.lr, hotstuff.View(view))
+				out.events = a.r.trip.count
+				a.r.trip.armed = false
+				if scheme == NameReputation {
+					out.after1 = c16ReadState(a.lr)
+				}
+				a.r.vs.UpdateCommittedBlock(a.blocks[k2])
+				out.a2 = c16Leader(a.lr, hotstuff.View(view2))
+				return out
+			}
+			for t := 0; t < 3; t++ {
+				k := rng.Intn(len(chain.blocks) - 2)
+				k2 := k + 1 + rng.Intn(2)
+				hv, hv2 := chain.blocks[k].view, chain.blocks[k2].view
+				view2 := hv2 + uint64(int64(cl)) + 1
+				for _, view := range []uint64{hv2 + uint64(int64(cl)), hv + uint64(int64(cl)), hv2 + uint64(int64(cl)) + 2} {
+					after := run(k, k2, view, view2, -2)  // the new head arrives just after the query
+					before := run(k, k2, view, view2, -1) // ... just before it
+					var js []int
+					for j := 0; j < after.events; j++ {
+						if after.events <= 10 || j < 4 || j >= after.events-2 || j == after.events/2 {
+							js = append(js, j)
+						}
+					}
+					for _, j := range js {
+						mid := run(k, k2, view, view2, j)
+						in := map[string]any{"scheme": scheme, "n": n, "own_id": uint32(own), "chain_length_param": cl, "shared_seed": seed,
+							"old_head":     map[string]any{"index": k, "view": hv, "qc_signers": fmt.Sprint(chain.blocks[k].signers)},
+							"new_head":     map[string]any{"index": k2, "view": hv2, "qc_signers": fmt.Sprint(chain.blocks[k2].signers)},
+							"queried_view": view, "follow_up_view": view2, "head_switched_at_moment": j, "moments_in_call": after.events,
+							"answers_mid_call":             []string{mid.a1.String(), mid.a2.String()},
+							"answers_new_head_just_before": []string{before.a1.String(), before.a2.String()},
+							"answers_new_head_just_after":  []string{after.a1.String(), after.a2.String()}}
+						var bl []map[string]any
+						for i := 0; i <= k2; i++ {
+							b := chain.blocks[i]
+							bl = append(bl, map[string]any{"view": b.view, "proposer": uint32(b.proposer), "qc_signers": fmt.Sprint(b.signers)})
+						}
+						in["committed_chain"] = bl
+						v.Seen(fmt.Sprintf("mid %s n=%d cl=%d seed=%d k=%d k2=%d v=%d j=%d", scheme, n, cl, seed, k, k2, view, j), true, in)
+						v.Count("head_changes_during_call_" + scheme)
+						likeAfter := mid.a1.same(after.a1) && mid.a2.same(after.a2) && (scheme != NameReputation || mid.after1.g() == after.after1.g())
+						likeBefore := mid.a1.same(before.a1) && mid.a2.same(before.a2) && (scheme != NameReputation || mid.after1.g() == before.after1.g())
+						switch {
+						case mid.a1.panicked || mid.a2.panicked:
+							v.Oracle(false, scheme+":panic", fmt.Sprintf("%s GetLeader(%d) panicked (%s) when the committed head moved from view %d to view %d during the call", scheme, view, c16FirstMsg(mid.a1, mid.a2), hv, hv2), in)
+						case !likeAfter && !likeBefore:
+							v.Oracle(false, scheme+":head-changed-during-call", fmt.Sprintf("%s GetLeader(%d) while the committed head moves from view %d to view %d, then GetLeader(%d): answers %s, %s; a replica that saw the new head just before the query answers %s, %s, one that saw it just after answers %s, %s", scheme, view, hv, hv2, view2, mid.a1, mid.a2, before.a1, before.a2, after.a1, after.a2), in)
+						default:
+							v.Oracle(true, "", "", nil)
+						}
+						// kernel: the first answer (and state change) is the model's step under one of the two heads
+						hk := k
+						if !likeAfter && likeBefore {
+							hk = k2
+						}
+						voters := chain.blocks[hk].signers
+						m := map[string]any{"replica": "head changes during the call", "modelled_under_head": hk, "input": in}
+						cfg := c16NewReplica(own, n, seed, nil).gConfig()
+						if scheme == NameCarousel {
+							sv := seed + int64(view)
+							v.Case(sc_, fmt.Sprintf("(%s, %s, [(%s, %s)], %s, %s, %s)", cfg, gZ(int64(cl)), gZ(sv), gZ(c16Drawn(sv)),
+								chain.gHead(hk, voters), gN(view), mid.a1.g()), m)
+						} else {
+							tabs := c16RepTables(n, seed, view, chain.blocks[hk].view, voters, mid.before1, mid.after1)
+							v.Case(sr, fmt.Sprintf("(%s, %s, %s, %s, %s, %s, %s, %s)", cfg, gZ(int64(cl)), tabs, mid.before1.g(),
+								chain.gHead(hk, voters), gN(view), mid.a1.g(), mid.after1.g()), m)
+						}
+					}
+				}
+			}
+		}
+	}
+}
+
 func TestVerifC16(t *testing.T) {
 	v := verifNew("C16")
 	c16Stateless(v)
@@ -1552,5 +1717,6 @@ func TestVerifC16(t *testing.T) {
 	c16Reputation(v)
 	c16Growth(v)
 	c16Concurrent(v)
+	c16MidCall(v)
 	v.Close("stateless: every (scheme, n in 1..64, view in grid) on two replicas; carousel/reputation: every (committed chain, head, queried view) on three replicas plus a first-time asker / an object asked other views; membership growth k -> n after the objects exist (all five schemes); large non-contiguous ids; 8 separately wired carousel / reputation objects on their own goroutines and interleaved on one goroutine vs. an object running alone; non-trivial = n >= 2 and view >= n (stateless), active carousel / weighted pick with n >= 4")
 }
